@@ -177,6 +177,13 @@ theorem bad_bundle_is_error (files : List Bundle) (inline : List (List Nat))
       · exact ⟨_, rfl⟩
       · rename_i _ hn; exact absurd (List.any_eq_true.mpr ⟨[], h, rfl⟩) hn
 
+/-- the embedded root of trust (`verify/trusted_root.pem`, used when the caller gives no pool) is byte for byte Intel's
+    SGX Root CA certificate file as pinned here: the SHA-256 the extractor computes from the source tree on every run
+    equals the value written down from the pinned commit (Intel's root, SHA-256 of the PEM file).  A swapped or edited
+    embedded anchor breaks this obligation although no generated world chains to it. -/
+theorem embedded_root_is_pinned :
+    verify_trusted_root_pem_sha256 = "194123d2a18be2beb525d0f0cc10a8998be1e63d7a0ecb723cb194f3e9833912" := by decide
+
 /-! ### non-vacuity -/
 example : rotToPool [some [1, 2]] [[3]] = .ok (some [1, 2, 3]) := by decide
 example : rotToPool [] [] = .ok none := by decide
